@@ -743,6 +743,25 @@ func sameLs(a, b []L) bool {
 // expected: the documented selection for the input (kind "originals": after the up-front drop of requested labels)
 func expected(in input, mode refMode) []L {
 	labels := in.Labels
+	if in.Kind == "e2e" {
+		// the command line: `...` is resolved to the :all labels of the packages found below it, then as "originals";
+		// the printed order depends on the directory walk: compared as a sorted set
+		ls := []L{}
+		for _, l := range labels {
+			if l.Name == "..." {
+				for _, p := range in.Graph {
+					if l.Sub == p.Sub && (l.Pkg == "" || l.Pkg == p.Pkg || strings.HasPrefix(p.Pkg, l.Pkg+"/")) {
+						ls = append(ls, L{p.Sub, p.Pkg, "all"})
+					}
+				}
+			} else {
+				ls = append(ls, l)
+			}
+		}
+		out := refExpand(in.Cur, in.Graph, in.Include, in.Exclude, refOriginals(in.Cur, in.Exclude, ls), in.NeedTests, mode)
+		sort.Slice(out, func(i, j int) bool { return lessL(out[i], out[j]) })
+		return out
+	}
 	if in.Kind == "originals" {
 		labels = refOriginals(in.Cur, in.Exclude, labels)
 	}
@@ -793,7 +812,7 @@ func checkExpansion(c *lib.Ctx, in input, got []L) {
 		}
 		ellipsis := false
 		for _, l := range in.Labels {
-			if l.Name == "..." {
+			if l.Name == "..." && in.Kind != "e2e" {
 				ellipsis = true
 			}
 		}
@@ -910,6 +929,10 @@ func main() {
 			"or a wildcard/compound group (single targets)")
 
 		var rep input
+		if c.ReadReplay(&rep) && rep.Kind == "e2e" {
+			endToEnd(c)
+			return
+		}
 		if c.ReadReplay(&rep) && (rep.Kind == "expand" || rep.Kind == "originals") {
 			if usable(rep.Cur, rep.Exclude) {
 				var got []L
@@ -1282,6 +1305,9 @@ func main() {
 			}
 		}
 
+		// ---- 6c. end to end (before the first NewDefaultBuildState: its watchdog dumps goroutines once the process has been idle for 5 s)
+		endToEnd(c)
+
 		// ---- 7. expansions
 		nExp := c.Scale(800, 12000)
 		nOrig := c.Scale(100, 600)
@@ -1361,7 +1387,5 @@ func main() {
 			c.HistN("include_args", len(in.Include))
 		}
 
-		// ---- 8. end to end
-		endToEnd(c)
 	})
 }
